@@ -16,7 +16,7 @@ def step_run(agree, monitors, quick=160, thorough=3000):
             'agree': agree, 'monitors': monitors}
 
 
-NODE_VO = ['Node.vo', 'Corr.vo', 'Monitors.vo', 'LeaderDefs.vo', 'QuorumDefs.vo', 'CorrComp.vo', 'CorrAgg.vo']
+NODE_VO = ['Node.vo', 'Corr.vo', 'Monitors.vo', 'CorrMulti.vo', 'LeaderDefs.vo', 'QuorumDefs.vo', 'CorrComp.vo', 'CorrAgg.vo']
 STEP_ASSUME = ['symbolic hashing: SHA-512/256 collision-free on the modelled pre-images and never all-zero (licensed by the C20 pre-image theorems)',
                'ideal signatures (EUF-CMA, strict verification) for Ed25519',
                'every task is a sequential process fed by FIFO channels; tokio/mpsc/RocksDB behave as documented',
@@ -35,6 +35,13 @@ def malformed_layout(case, v):
 
 def malformed_layout_nomon(case, v):
     return (list(range(1, len(v) - 1)), [])
+
+
+def multi_layout(case, v):
+    # per-node cases: the step_verdict layout; the scenario's global case: [all; every node agrees; agreement; own logs are chains; one vote per round]
+    if case.get('kind') == 'global':
+        return ([1], [2, 3, 4])
+    return ([NET, COMMIT, PROP, RES, STATE], [M_C02, M_C05])
 
 
 CODEC_RULE = ('real bincode (de)serialisation of every consensus and mempool message variant with real keys/signatures (payload 0..5, vote lists 0..7, TC present/absent) compared byte for byte with the '
@@ -62,8 +69,9 @@ PROPS = {
     'C01': {
         'vo': NODE_VO,
         'sites': ['g_safety_rule_1', 'g_safety_rule_2', 'g_can_extend', 'g_can_extend_hq', 'g_two_chain', 'g_update_high_qc', 'g_vote_stale', 'g_timeout_stale', 'g_tc_stale', 'g_advance_guard', 'g_advance_next', 'g_round_gate', 'g_quorum_consensus', 'g_commit_skip', 'g_commit_walk', 'g_commit_stop'],
-        'corr': [step_run([NET, COMMIT, PROP, RES, STATE], [M_C02, M_C05])],
-        'rule': STEP_RULE, 'assumptions': STEP_ASSUME + ['network model: the adversary may deliver to any honest node, at any time and any number of times, any message all of whose honest signatures exist'],
+        'corr': [step_run([NET, COMMIT, PROP, RES, STATE], [M_C02, M_C05]),
+                 {'name': 'multi', 'bin': 'multi', 'mode': 'run', 'emit': 'multi', 'priority': 0, 'quick': 40, 'thorough': 400, 'layout': multi_layout, 'timeout': 900, 'coq_timeout': 900}],
+        'rule': STEP_RULE + '; multi: n = 4..7 REAL Cores in one process (f = (n-1)/3 Byzantine ranks played by the harness with their own keys plus honest signatures already observed on the wire), the harness is the network and an adversarial scheduler (delay, reorder, duplicate, withhold, partition) with scripted strategies: fair, equivocation fork, stale-TC fork, non-consecutive-round fork, partition-then-heal, double-vote race, and a randomised mix', 'assumptions': STEP_ASSUME + ['network model: the adversary may deliver to any honest node, at any time and any number of times, any message all of whose honest signatures exist'],
     },
     'C03': {
         'vo': NODE_VO,
@@ -124,7 +132,7 @@ PROPS = {
     'C16': {
         'vo': ['StoreDefs.vo', 'CorrComp.vo', 'CorrStore.vo'],
         'sites': [],
-        'corr': [{'name': 'store', 'bin': 'comp', 'mode': 'store', 'quick': 120, 'thorough': 2000, 'agree': [1], 'monitors': [2]}],
+        'corr': [{'name': 'store', 'bin': 'comp', 'mode': 'store', 'quick': 150, 'thorough': 2000, 'agree': [1], 'monitors': [2, 3]}],
         'rule': 'real Store (RocksDB) used through three cloned handles on one thread: random write/read/notify-read sequences over 1..4 keys with concurrent waiters, and drop-everything-and-reopen; '
                 'non-trivial = contains a notify-read; distinct = distinct command sequences',
         'assumptions': ['tokio mpsc FIFO/linearisation of commands; RocksDB durability and get-after-put'],
